@@ -1250,3 +1250,74 @@ func ruleCreateOnlyMerge(w *World, r *Report, pf *patchFamily, scope func(*ssa.F
 		r.Bad(rule, pf.tag+":instance-floor", "-", fmt.Sprintf("only %d fresh-object sites found in the patch family", n))
 	}
 }
+
+// ruleSetTarget — R-SETTARGET (C08: "failing if the target is not an array").
+// A patch implementation of a node that is not an array (the object patch and
+// the shared leaf patch all scalars delegate to) may, under strict strategy,
+// commit on its own only when the hunk's path is really exhausted
+// (len(pathAhead) == 0 on every path to the return). `isLeaf()` is not
+// exhaustion: it also holds for a path that still carries a set or multiset
+// element, and a commit behind it applies `@ [{}]` / `@ [[]]` hunks to an
+// object or scalar as a plain value replacement instead of rejecting them.
+func ruleSetTarget(w *World, r *Report, pf *patchFamily) {
+	const rule = "R-SETTARGET"
+	var targets []*ssa.Function
+	for _, fn := range pf.methods {
+		if fn.Signature.Recv() == nil {
+			continue
+		}
+		switch fn.Signature.Recv().Type().Underlying().(type) {
+		case *types.Map:
+			targets = append(targets, fn)
+		}
+	}
+	targets = append(targets, pf.leaf)
+	for _, fn := range targets {
+		r.Fn(fnName(fn))
+		x := &expectCtx{w: w, pf: pf, fn: fn, d: NewDeriv(w, fn), ea: newErrAnalysis(w), lps: loopsOf(fn)}
+		calls := pf.familyCalls(fn)
+		pa := pf.roleParam(fn, "pathAhead")
+		cut := EdgeSet{}
+		for e := range x.strictInfeasible() {
+			cut[e] = true
+		}
+		nTests := 0
+		for _, b := range fn.Blocks {
+			cond, tE, fE, ok := branchEdges(b)
+			if !ok {
+				continue
+			}
+			c, ok := cond.(*ssa.BinOp)
+			if !ok {
+				continue
+			}
+			t, off, _, okT := termOf(c.X)
+			k, okK := constInt(c.Y)
+			if !(okT && okK && t.isLen && off == 0 && t.v == ssa.Value(pa)) {
+				continue
+			}
+			switch {
+			case c.Op == token.EQL && k == 0, c.Op == token.LEQ && k == 0, c.Op == token.LSS && k == 1:
+				cut[tE] = true
+				nTests++
+			case c.Op == token.NEQ && k == 0, c.Op == token.GTR && k == 0, c.Op == token.GEQ && k == 1:
+				cut[fE] = true
+				nTests++
+			}
+		}
+		n := 0
+		bad := ""
+		for _, ret := range returnsOf(fn) {
+			if !isNilErrReturn(ret) || x.delegated(ret, calls) {
+				continue
+			}
+			n++
+			if !cutsOff(fn, cut, ret.Block()) {
+				bad = w.Pos(ret.Pos())
+			}
+		}
+		r.Check(bad == "", rule, fnName(fn)+":strict-commit-only-with-empty-path", w.Pos(fn.Pos()),
+			fmt.Sprintf("under strict strategy all %d own success returns lie behind len(pathAhead) == 0 (%d tests)", n, nTests),
+			"under strict strategy a success return at "+bad+" is reachable while pathAhead is not empty (isLeaf() also accepts a remaining set/multiset element): a set or multiset hunk addressed to this non-array node is applied as a plain replacement instead of failing")
+	}
+}
